@@ -295,7 +295,12 @@ class World:
                 sr.exc_obj = e
                 sr.real_tb = traceback.format_exc()
             finally:
-                mon.set_phase('outside')
+                mon.set_phase('after-api')
+            cb = rctx.hooks.get('after_api')
+            if cb is not None:
+                # e.g. join straggler threads that use a finished builder (C17)
+                cb(rctx, sr)
+            mon.set_phase('outside')
         if model_after is not None:
             # the model is told which call failed in setup (and how) by what was
             # observed in the real run (fault injection, C14)
